@@ -47,6 +47,7 @@ pub struct Unit {
     /// anchor plus the block it fills (CSE declared block / current spill)
     pub block: Rect,
     pub is_array: bool,
+    pub is_dynamic: bool,
     pub reads: Vec<Rect>,
     /// reads something the analysis cannot resolve (defined name, lambda,
     /// table, parse error, nonexistent sheet)
@@ -120,11 +121,14 @@ pub fn units(model: &Model) -> Vec<Unit> {
                 Some(x) => x,
                 None => continue,
             };
-            let (f, block, is_array) = match cell {
-                Cell::CellFormula { f, .. } => (*f, Rect::cell(sheet, r, c), false),
-                Cell::ArrayFormula { f, r: (w, h), .. } => {
-                    (*f, Rect { sheet, r0: r, c0: c, r1: r + (*h).max(1) - 1, c1: c + (*w).max(1) - 1 }, true)
-                }
+            let (f, block, is_array, is_dynamic) = match cell {
+                Cell::CellFormula { f, .. } => (*f, Rect::cell(sheet, r, c), false, false),
+                Cell::ArrayFormula { f, r: (w, h), kind, .. } => (
+                    *f,
+                    Rect { sheet, r0: r, c0: c, r1: r + (*h).max(1) - 1, c1: c + (*w).max(1) - 1 },
+                    true,
+                    matches!(kind, ironcalc_base::types::ArrayKind::Dynamic),
+                ),
                 _ => continue,
             };
             let mut reads = Vec::new();
@@ -133,7 +137,7 @@ pub fn units(model: &Model) -> Vec<Unit> {
                 Some((node, _)) => collect_reads(node, sheet, r, c, &|_| None, &mut reads, &mut opaque),
                 None => opaque = true,
             }
-            out.push(Unit { sheet, row: r, col: c, block, is_array, reads, opaque });
+            out.push(Unit { sheet, row: r, col: c, block, is_array, is_dynamic, reads, opaque });
         }
     }
     out
